@@ -21,7 +21,9 @@ var checks = map[string]func(*ev.Ctx){
 	"C05": props.C05,
 	"C06": props.C06,
 	"C12": props.C12,
+	"C15": props.C15,
 	"C16": props.C16,
+	"C20": props.C20,
 }
 
 func main() {
